@@ -486,7 +486,10 @@ func (se *SessionExecutor) getBackendKsConn(reqCtx *util.RequestContext, sliceNa
 	}
 
 	slice := se.GetNamespace().GetSlice(sliceName)
-	reqCtx.SetFromSlave(se.userPriv == models.ReadOnly)
+	// the connection is pinned for the whole session and its transactions run on it
+	// (BEGIN is forwarded to the pinned connections): it is a master connection for
+	// every user, read-only ones included (what they may execute is checked before)
+	reqCtx.SetFromSlave(false)
 	pc, err = slice.GetConn(reqCtx, se.GetNamespace().GetUserProperty(se.user), se.GetNamespace().localSlaveReadPriority)
 	if err != nil {
 		log.Warn("get connection from backend failed, error: %s", err.Error())
